@@ -159,6 +159,13 @@ def run(ctx):
                 if len(x2.oddpos) >= 2:
                     x = x2
                     stats['multi_label'] += 1
+                    if rng.random() < 0.6 and x.ndim <= 3:
+                        # ... and a third one: an odd array holding THREE labels (or an even one holding two, ...)
+                        y1 = gen.rand_array(rng, sr, sym, ndim=1, fermionic=True, oddpos=rng.randint(21, 29), lo=-2, hi=2, maxsize=2)
+                        x3 = sr.tensordot(x, y1, axes=0, preserve_array=True)
+                        if len(x3.oddpos) >= 3:
+                            x = x3
+                            stats['three_labels'] = stats.get('three_labels', 0) + 1
             except Exception:
                 pass
         nd = x.ndim
